@@ -52,7 +52,7 @@ TOKENS = (("WETH", 18), ("USDC", 6), ("WBTC", 8), ("DAI", 18), ("LINK", 18))
 
 
 def plan(tier, seed):
-    n = 14 if tier == "quick" else 600
+    n = 36 if tier == "quick" else 600
     return [{"shard": i, "cases": n} for i in range(NSHARDS)]
 
 
